@@ -1,5 +1,5 @@
 CONSTANTS
-  Tier = 2
+  Tier = 1
   MaxSize = 4
   Export = TRUE
 SPECIFICATION Spec
